@@ -12,6 +12,9 @@ def P(pkg=".", harness="dastard", race=None, shards=None, shard_timeout=None, go
 PROPS = {
     "C01": P(gomaxprocs=[1, 2, 4, 4]),
     "C02": P(gomaxprocs=[1, 2, 4, 4]),
+    "C05": P(),
+    "C06": P(),
+    "C20": P(),
     "C08": P(gomaxprocs=[1, 2, 4, 4]),
     "C09": P(gomaxprocs=[1, 2, 4, 4]),
     "C12": P(),
